@@ -140,6 +140,8 @@ CANARIES = {
     "C18": [
         ("own-filters-not-forwarded", "stix2/datastore/__init__.py", "delete-call-stmt", ["CompositeDataSource.query", "all_filters.add(self.filters)"], "C18.member-forward"),
         ("newest-reversed", "stix2/datastore/__init__.py", "reverse-compare", ["CompositeDataSource.get", "ver > latest_ver"], "C18.newest"),
+        ("related-objects-per-member", "stix2/datastore/__init__.py", "text", ["        results = super(CompositeDataSource, self).related_to(*args, **kwargs)\n", "        results = []\n        for ds in self.data_sources:\n            results.extend(ds.related_to(*args, **kwargs))\n"], "C18.navigation-over-union"),
+        ("self-loop-twice", "stix2/datastore/__init__.py", "text", ["                target_filters.append(Filter('source_ref', '!=', obj_id))\n", "                pass\n"], "C18.navigation-over-union"),
     ],
     "C19": [
         ("duplicate-refusal-removed", "stix2/registration.py", "drop-raise-guard", ["_register_observable", "OBJ_MAP_OBSERVABLE"], "C19.map-agreement"),
